@@ -10,6 +10,7 @@ from __future__ import annotations
 
 import itertools
 
+import c10_picker as PK
 import pipegen
 
 # (an intermediate consumed with transposed axes, `y[i, j]` produced and `y[j, i]` consumed, is already refused by `Pipeline._validate_mapspec`)
@@ -219,6 +220,7 @@ def gen_env(rng):
                 continue
             inputs.append([p, {"s": f"in:{p}"}])
     pipegen.assign_consts(rng, funcs)
+    PK.assign(rng, funcs)        # ext5: custom output_picker styles on the tuple-output functions (inside and outside the group)
     desc = {"funcs": funcs, "inputs": inputs, "input_kinds": kinds, "internal": [], "sizes": sizes}
     info = {"sel": [g["outputs"][0] for g in group], "shape": shape_kind, "perturb": applied, "group_outs": group_outs,
             "consumed": sorted({p for f in funcs if f not in group for p, _ in f["params"] if p in group_outs}),
@@ -238,4 +240,8 @@ def nest_op(rng, info, src, dst):
         keep = sorted(set(info["consumed"]) | set(info["leaf_outs"]) | {o for o in inner if rng.random() < 0.5})
         rng.shuffle(keep)
         op["out"] = keep
+    elif r < 0.6 and len(info["leaf_outs"]) > 1 and set(info["consumed"]) <= set(info["leaf_outs"]):
+        op["out"] = list(info["leaf_outs"])        # ext5: EXACTLY the tuple of the multi-output leaf (the inner result dict has that key)
+    if rng.random() < 0.12:
+        op["via"] = "ctor"                          # ext5: NestedPipeFunc(...) built by hand instead of nest_funcs
     return op
